@@ -447,6 +447,7 @@ pub struct RunStats {
     pub unwind_at_debug_fmt: u64,
     pub bursts: u64,
     pub burst_calls: u64,
+    pub long_bursts: u64,
     pub lock_handovers: u64,
 }
 
@@ -974,6 +975,9 @@ pub fn run_scenario(sc: &Scenario, opts: &RunOpts) -> RunReport {
             if let Op::Burst { n, .. } = op.strip().1 {
                 stats.bursts += 1;
                 stats.burst_calls += *n;
+                if *n > 65_536 {
+                    stats.long_bursts += 1;
+                }
             }
             classify(&mut stats, &r.outcome);
             digest = mix(digest, hash_str(&format!("{:?}", r.outcome)));
